@@ -2,7 +2,7 @@
     Only theorem statements closed by [exact]; proofs in Proofs/C06Justice.v (and
     Proofs/C05Shachain.v for the secret store); model in Model/Justice.v. *)
 Require Import LdkV.Prim.U64 LdkV.Model.Shachain LdkV.Model.Justice LdkV.Proofs.C06Justice
-  LdkV.Crypto.Sha256.
+  LdkV.Gen.Consts LdkV.Gen.Package LdkV.Proofs.C06Fee LdkV.Crypto.Sha256.
 Open Scope Z_scope.
 
 (** For EVERY hash function, seed, assignment of commitments (any HTLC lists, dust or not, both
@@ -47,16 +47,94 @@ Theorem C06_no_duplicate_claims : forall txid k outs hs,
   NoDup (revokeable_outs txid k 0 outs ++ map (pair txid) (htlc_idxs hs)).
 Proof. exact claims_nodup. Qed.
 
-(** For every subset [S] of the revoked commitment's outputs that the cheater spends first with its
-    own HTLC transactions [(htxid, v)] (one input, five witness elements): the tracked claims become
-    (claims minus S) plus output 0 of each of those transactions. *)
+(** The block filter: a transaction is relevant as soon as ANY of its inputs -- at any position --
+    spends an output of a transaction matched earlier in the same block (or a watched outpoint). *)
+Theorem C06_block_filter_any_input : forall watched matched tx inp,
+  In inp (s_ins tx) -> In (fst (fst inp)) matched -> relevant watched matched tx = true.
+Proof. exact relevant_child. Qed.
+
+Theorem C06_block_filter_is_relevant : forall watched matched tx tl,
+  filter_block watched matched (tx :: tl) =
+  if relevant watched matched tx then tx :: filter_block watched (s_txid tx :: matched) tl
+  else filter_block watched matched tl.
+Proof. exact filter_block_unfold. Qed.
+
+(** Second stage, general form: for ANY list [S] of cheater transactions (any number of inputs each,
+    the HTLC inputs at any position, extra fee inputs before / between / after them) none of which spends
+    a second-stage output of another: the tracked claims become the claims none of them spent plus,
+    for every input [i] that spends the commitment with a 5-element witness, output [i] of its
+    transaction. *)
 Theorem C06_second_stage : forall (H : bytes -> bytes) m k ctxid sec,
   get_secret H (m_secrets m) k = Some sec ->
-  forall (S : list (Z * Z)) claims,
-  (forall hv, In hv S -> fst hv <> ctxid) ->
-  fold_left (fun cl (hv : Z * Z) => track H m k ctxid cl (mkStx (fst hv) [(ctxid, snd hv, 5)] 1)) S claims =
-  filter (fun op => negb (in_S ctxid S op)) claims ++ map (fun hv : Z * Z => (fst hv, 0)) S.
-Proof. exact track_subset. Qed.
+  forall (S : list stx) claims,
+  (forall t t' op, In t S -> In t' S -> In op (second_stage ctxid t) -> spends t' op = false) ->
+  fold_left (track H m k ctxid) S claims =
+  filter (fun op => negb (existsb (fun t => spends t op) S)) claims ++ flat_map (second_stage ctxid) S.
+Proof. exact track_all. Qed.
+
+Theorem C06_second_stage_outputs_exact : forall ctxid htxid nout ins i0 op,
+  In op (second_stage_outs ctxid htxid nout i0 ins) <->
+  exists j : nat, (j < List.length ins)%nat /\ op = (htxid, i0 + Z.of_nat j) /\
+    fst (fst (nth j ins (0, 0, 0))) = ctxid /\ snd (nth j ins (0, 0, 0)) = 5 /\ i0 + Z.of_nat j < nout.
+Proof. exact second_stage_outs_spec. Qed.
+
+(** SAME-BLOCK delivery: the block holds the revoked commitment [C] followed, in ANY order, by cheater
+    transactions spending its outputs and by unrelated transactions. The commitment's outputs were not
+    watched when the block arrived; nevertheless every cheater transaction is seen, and at the end of
+    the block the tracked claims are the justice claims none of them spent plus all their
+    second-stage outputs. *)
+Theorem C06_second_stage_same_block : forall (H : bytes -> bytes) m watched funding (tx : ctx) sec
+    (C : stx) (S : list stx) (U : list Z),
+  get_min_seen_secret (m_secrets m) <= t_number tx ->
+  get_secret H (m_secrets m) (t_number tx) = Some sec ->
+  s_txid C = t_txid tx -> spends_outpoint funding (s_ins C) = true ->
+  spends_watched watched (s_ins C) = true ->
+  In (t_txid tx) U -> (forall t, In t S -> In (s_txid t) U) ->
+  (forall t, In t S -> spends_tx (t_txid tx) t = false -> unrelated watched U t) ->
+  (forall t t' op, In t S -> In t' S -> In op (second_stage (t_txid tx) t) -> spends t' op = false) ->
+  process_block H m watched funding tx false [] (C :: S) =
+  (true,
+   filter (fun op => negb (existsb (fun t => spends t op) (filter (spends_tx (t_txid tx)) S))) (justice H m tx)
+   ++ flat_map (second_stage (t_txid tx)) (filter (spends_tx (t_txid tx)) S)).
+Proof. exact same_block_second_stage. Qed.
+
+(** ** Fee adequacy of re-issued claims ([feerate_bump] as regenerated from package.rs) *)
+
+(** when the capped fresh estimate exceeds the previous feerate, a bump pays at least the fee that
+    estimate asks for this weight -- however far the fee market moved, not merely previous + 25 % *)
+Theorem C06_bump_follows_estimate : forall w amt dust p strat sweep fee' rate',
+  0 < w -> 0 <= p ->
+  strat <> FeerateStrategy_RetryPrevious ->
+  feerate_bump w amt dust p strat sweep = Some (fee', rate') ->
+  p < capped_estimate amt w sweep ->
+  capped_estimate amt w sweep * w / 1000 <= fee'.
+Proof. exact bump_follows_estimate. Qed.
+
+Theorem C06_bump_never_lowers_fee : forall w amt dust p strat sweep fee' rate',
+  0 < w -> 0 <= p ->
+  feerate_bump w amt dust p strat sweep = Some (fee', rate') ->
+  p * w / 1000 <= fee'.
+Proof. exact bump_never_lowers_fee. Qed.
+
+(** one unconfirmed claim over any number of blocks and ANY fee-estimate trajectory [est], with any
+    timer function that stays within LOW_FREQUENCY_BUMP_INTERVAL (C07 proves this of get_height_timer),
+    while bumps stay affordable: it is re-issued at least every LOW_FREQUENCY_BUMP_INTERVAL blocks; every
+    re-issue pays at least the previous fee and at least what the capped estimate of that height asks
+    whenever that exceeds the previous feerate *)
+Theorem C06_bumped_until_buried : forall (w amt dust : Z) (est timer : Z -> Z),
+  0 < w -> (forall h, h < timer h <= h + LOW_FREQUENCY_BUMP_INTERVAL) ->
+  forall c0 h0, 0 <= c_rate c0 ->
+  h0 < c_timer c0 <= c_last c0 + LOW_FREQUENCY_BUMP_INTERVAL -> c_last c0 <= h0 ->
+  forall n : nat,
+  (forall k : nat, (k < n)%nat -> forall c, affordable w amt dust est c (h0 + Z.of_nat (S k))) ->
+  let '(c, log) := run_blocks w amt dust est timer c0 h0 n in
+  0 <= c_rate c /\
+  h0 + Z.of_nat n < c_timer c <= c_last c + LOW_FREQUENCY_BUMP_INTERVAL /\ c_last c <= h0 + Z.of_nat n /\
+  forall pre h f r post, log = pre ++ (h, f, r) :: post ->
+    let prev := match rev pre with [] => (c_rate c0, c_fee c0) | (_, f', r') :: _ => (r', f') end in
+    fst prev * w / 1000 <= f /\
+    (fst prev < capped_estimate amt w (est h) -> capped_estimate amt w (est h) * w / 1000 <= f).
+Proof. exact bumped_until_buried. Qed.
 
 (** transactions that touch neither a tracked outpoint nor the revoked commitment change nothing *)
 Theorem C06_unrelated_tx_ignored : forall (H : bytes -> bytes) m k ctxid claims tx,
@@ -80,4 +158,25 @@ Example C06_example_claims :
                   mkOut (ORevokeable (FIRSTN - 1)) 600000])
   | None => []
   end = [(1001, 3); (1001, 2); (1001, 1)].
+Proof. vm_compute. reflexivity. Qed.
+
+(** same-block non-vacuity: the commitment (txid 1001) and, later in the same block, a cheater
+    transaction whose FIRST input is a fee input and whose second input spends HTLC output 2: it is
+    seen, the claim on (1001,2) is replaced by a claim on output 1 of that transaction *)
+Example C06_example_same_block :
+  match apply_all sha256 mon_init (history sha256 (repeat 5 32) ex_commit 4) with
+  | Some m => process_block sha256 m [(77, 0)] (77, 0)
+                (mkCtx 1001 (FIRSTN - 1)
+                   [mkOut OOtherScript 300000; mkOut OOtherScript 7000; mkOut OOtherScript 5000;
+                    mkOut (ORevokeable (FIRSTN - 1)) 600000])
+                false []
+                [mkStx 1001 [(77, 0, 4)] 4; mkStx 555 [(9, 0, 2)] 1; mkStx 2002 [(8, 1, 2); (1001, 2, 5)] 2]
+  | None => (false, [])
+  end = (true, [(1001, 3); (1001, 1); (2002, 1)]).
+Proof. vm_compute. reflexivity. Qed.
+
+(** a 20x fee spike: the regenerated [feerate_bump] moves a 1000-weight claim of 1 000 000 sat from
+    253 to the new estimate at once *)
+Example C06_example_spike :
+  feerate_bump 1000 1000000 546 253 FeerateStrategy_ForceBump 5060 = Some (5060, 5060).
 Proof. vm_compute. reflexivity. Qed.
